@@ -112,6 +112,7 @@ class World:
         else:
             self.setup = MultiSetup_PreGER(fs=fs0, ref_ind=self.user_ref, datasets=self.user)
         self.last_exc = None
+        self.saveload_ok = True
 
     # ----- actions
     def apply(self, act, alg_factory=None, mpe_args=None):
@@ -147,6 +148,7 @@ class World:
                     self.setup = load_from_file(path)
                 finally:
                     os.remove(path)
+                self.saveload_ok = self._same_setup(s, self.setup)
             else:
                 raise AssertionError(f"unknown action {act}")
             return False
@@ -155,6 +157,21 @@ class World:
         except Exception as e:  # the linearisation point of a rejected call is its raise
             self.last_exc = e
             return True
+
+    @staticmethod
+    def _same_setup(a, b):
+        """equal parameters and results after a pickle round trip"""
+        from .props.c15 import same_obj
+
+        if type(a) is not type(b) or list(a.algorithms) != list(b.algorithms):
+            return False
+        for n in a.algorithms:
+            x, y = a.algorithms[n], b.algorithms[n]
+            if type(x) is not type(y) or not same_obj(x.run_params, y.run_params) or not same_obj(x.result, y.result):
+                return False
+            if not same_obj(getattr(x, "fs", None), getattr(y, "fs", None)):
+                return False
+        return True
 
     # ----- projections
     def meta(self):
